@@ -3,6 +3,8 @@ sys.path.insert(0, os.path.join(os.path.dirname(os.path.abspath(__file__)), '..'
 import vlib, flow
 
 H = os.path.join(vlib.ROOT, 'harness/kernel/device/tty')
+import gen_trans
+gen_trans.register('tty_vt.json')   # Go -> Gallina translation of the loop-free VT methods (Gen/Trans_tty_vt.v, used by Tty/VtTrans.v)
 vlib.register_const_dump('kernel', 'device/tty', os.path.join(H, 'zz_verif_consts_test.go'))
 
 M32 = (1 << 32) - 1
@@ -283,7 +285,7 @@ def soak(spec, ctx, cases):
 
 class C17(flow.Spec):
     prop = 'C17'
-    props_files = ['theories/Props/C17.v', 'theories/Props/C17_examples.v']
+    props_files = ['theories/Props/C17.v', 'theories/Props/C17_examples.v', 'theories/Props/C17_trans.v']
     model_targets = ['theories/Tty/Vt.vo']
     pkg = 'device/tty'
     harness = [os.path.join(H, 'zz_verif_c17_test.go')]
